@@ -476,3 +476,164 @@ def c10(prop, tier, seed):
                                 "write failures are injected with RLIMIT_FSIZE (EFBIG), standing in for ENOSPC/EDQUOT/EIO"]}
     finally:
         shutil.rmtree(sdir, ignore_errors=True)
+
+
+# ---------------------------------------------------------------------------------------
+# family: auto-refresh (C11 C20) - spec/CacheAuto.tla, harness replay-auto
+
+import re as _re
+_LABEL = _re.compile(r"^State \d+: <(\w+)(?:\((.*?)\))? line")
+
+
+def trace_to_row(trace_lines, init_dirs, init_exists):
+    """Turns the action labels of a TLC counter-example into a behaviour row for replay-auto."""
+    hist = [{"a": "init", "d": "", "n": "", "c": 0, "w": 1, "nd": init_dirs, "na": True, "ex": init_exists}]
+    names = {"CreateWrite": "createwrite", "Rewrite": "rewrite", "RenameWithin": "renamewithin", "MoveIn": "movein", "MoveOut": "moveout",
+             "RemoveFile": "removefile", "Rmdir": "rmdir", "Mkdir": "mkdir", "RenameDirAway": "renamediraway", "ReaderFetch": "fetch",
+             "GorRecv": "recv", "GorExit": "exit", "GorHandle": "handle", "Query": "query", "Configure": "configure", "Shortage": "shortage"}
+    for l in trace_lines:
+        m = _LABEL.match(l)
+        if not m or m.group(1) not in names:
+            continue
+        a = names[m.group(1)]
+        args = [x.strip().strip('"') for x in (m.group(2) or "").split(",")] if m.group(2) else []
+        e = {"a": a, "d": "", "n": "", "c": 0, "w": 0, "nd": [], "na": False}
+        if a in ("createwrite", "rewrite"):
+            e["d"], e["n"], e["c"] = args[0], args[1], int(args[2])
+        elif a == "movein":
+            e["d"], e["c"] = args[0], int(args[1])
+        elif a == "removefile":
+            e["d"], e["n"] = args[0], args[1]
+        elif a in ("renamewithin", "moveout", "rmdir", "mkdir", "renamediraway"):
+            e["d"] = args[0]
+        elif a in ("fetch", "recv", "exit", "handle"):
+            e["w"] = int(args[0])
+        elif a == "configure":
+            mm = _re.match(r"\{(.*)\},\s*(TRUE|FALSE)", m.group(2))
+            e["nd"] = [x.strip().strip('"') for x in mm.group(1).split(",") if x.strip()]
+            e["na"] = mm.group(2) == "TRUE"
+        hist.append(e)
+    hist.append({"a": "query", "d": "", "n": "", "c": 0, "w": 0, "nd": [], "na": False})
+    return {"hist": hist, "cdirs": init_dirs, "auto": True, "fresh": {}, "missing": [], "directed": True}
+
+
+def directed_schedules(base_cfg, toggles):
+    """The schedules TLC finds when one repair is switched off, as directed behaviours: the real
+    code (which has the repair) must converge on each of them."""
+    base = open(os.path.join(vlib.SPEC, base_cfg)).read()
+    rows = []
+    found = {}
+    for flag, repl in toggles:
+        cfg = base.replace("%s = TRUE" % flag, "%s = FALSE" % flag)
+        for a, b in repl:
+            cfg = cfg.replace(a, b)
+        r = run_tlc("CacheAuto", "directed.cfg", timeout=900, keep={"directed.cfg": cfg}, workers=8)
+        found[flag] = list(r.violated)
+        if not r.violated:
+            raise ToolFailure("selftest: the model no longer finds a counter-example with %s = FALSE" % flag)
+        # initial state: first state of the trace
+        txt = "\n".join(r.trace)
+        ex = _re.search(r"exists = (\[.*?\]|\(.*?\))", txt)
+        init_exists = [d for d, v in _re.findall(r'"?(\w+)"? (?:\|->|:>) (TRUE|FALSE)', ex.group(1))] if ex else []
+        init_exists = [d for d, v in _re.findall(r'"?(\w+)"? (?:\|->|:>) (TRUE|FALSE)', ex.group(1)) if v == "TRUE"] if ex else []
+        cd = _re.search(r"cdirs = \{(.*?)\}", txt)
+        init_dirs = [x.strip().strip('"') for x in cd.group(1).split(",") if x.strip()] if cd else ["A"]
+        rows.append(trace_to_row(r.trace, init_dirs, init_exists))
+    return rows, found
+
+
+def dedupe_auto(rows):
+    """behaviours that differ only in where queries fall are one behaviour for the free-running
+    pacing; keep one per controllable projection + schedule"""
+    seen = {}
+    for r in rows:
+        key = json.dumps([(a["a"], a["d"], a["n"], a["c"], a.get("nd"), a.get("na")) for a in r["hist"] if a["a"] != "query"])
+        seen.setdefault(key, r)
+    return list(seen.values())
+
+
+def auto_family(prop, tier, seed, mc_cfgs, gen_runs, directed, extra_rule):
+    vlib.build_harness()
+    thunks = [(lambda c=c: run_tlc("CacheAuto", c, timeout=3000, workers=6)) for c in mc_cfgs]
+    thunks += [(lambda c=c, n=n, d=d: run_tlc("CacheAuto", c, timeout=1800, simulate="num=%d" % n, depth=d, seed=seed, workers=4, deadlock=True))
+               for (c, n, d) in gen_runs]
+    rs = parallel(*thunks)
+    mcs, gens = rs[:len(mc_cfgs)], rs[len(mc_cfgs):]
+    for r, c in zip(mcs, mc_cfgs):
+        model_must_hold(r, c)
+    for r in gens:
+        model_must_hold(r, "generation")
+    rows = dedupe_auto([row for g in gens for row in g.rows])
+    drows, found = [], {}
+    for base, toggles in directed:
+        dr, f = directed_schedules(base, toggles)
+        drows += dr
+        found.update(f)
+    if not rows:
+        raise ToolFailure("vacuous: no behaviour generated")
+    allrows = drows + rows
+    f = scratch_file("auto.ndjson")
+    write_rows(allrows, f)
+    try:
+        res, err = run_harness("replay-auto", ["-cases", f, "-seed", seed], timeout=3000)
+    finally:
+        os.unlink(f)
+    tool_errors(res["mismatches"])
+    mine = tagged(res["mismatches"], prop)
+    cov = {"states": sum(r.distinct for r in mcs), "transitions": sum(r.generated for r in mcs),
+           "traces_validated_against_impl": res["evaluations"], "evaluations": res["evaluations"],
+           "distinct_nontrivial": res["distinct_nontrivial"], "executions": res["steps"],
+           "directed_schedules": found, "transient_failures": res.get("extra", {}).get("transient_failures", 0),
+           "tlc_runs": [{"cfg": c, "distinct_states": r.distinct, "generated": r.generated, "depth": r.depth, "wall_s": round(r.wall, 1),
+                         "properties": "invariants + liveness under weak fairness"} for r, c in zip(mcs, mc_cfgs)],
+           "rule": "TLC checks the CacheAuto state machine (file system, inotify queues, fsnotify reader, watcher goroutines with captured arguments, "
+                   "Configure, queries) exhaustively for Converges/ErrConverges/Settles/Bounded/ConfigureFresh. Behaviours (seeded tlc -simulate, "
+                   "de-duplicated by their controllable projection) and the counter-example schedules TLC finds when each repair is switched off in "
+                   "the model are executed on a real auto-refresh cache over real inotify at three pacings (free-running; the recorded schedule "
+                   "enforced through the watch.prelock gate; watcher held until the history ends), then the query API is polled until it equals a "
+                   "fresh cache on the final directories (10 s; a violation needs 3 failing fresh executions). " + extra_rule,
+           "samples": [allrows[0], allrows[len(allrows) // 2]], "exhaustive": False,
+           "checker_cmd": "tlc CacheAuto (" + ", ".join(mc_cfgs) + ") ; tlc -simulate (generation) ; harness replay-auto"}
+    return {"level": "model_checking", "coverage": cov, "mismatches": mine, "replay_with": "replay-auto",
+            "assumptions": ["inotify delivery and the fsnotify 1.5.1 reader are modelled from reading their code; on the real side they are the real kernel and library",
+                            "timing: 10 s convergence window, 2 s resource settling; only the gate-enforced schedules are deterministic",
+                            "small scope: <= 2 directories, one Spec name and one temporary name per directory, two contents"]}
+
+
+@check("C11")
+def c11(prop, tier, seed):
+    if tier == "quick":
+        return auto_family(prop, tier, seed, ["CacheAuto_quick.cfg"], [("CacheAuto_gen1.cfg", 40, 40)],
+                           [("CacheAuto_quick.cfg", [("FIX_CREATE", []), ("FIX_READD", [("MaxFsOps = 4", "MaxFsOps = 5")])])], "")
+    return auto_family(prop, tier, seed, ["CacheAuto_thorough.cfg", "CacheAuto_2dir.cfg"],
+                       [("CacheAuto_gen1.cfg", 400, 40), ("CacheAuto_gen2.cfg", 300, 60)],
+                       [("CacheAuto_quick.cfg", [("FIX_CREATE", []), ("FIX_READD", [("MaxFsOps = 4", "MaxFsOps = 5")])])], "")
+
+
+@check("C20")
+def c20(prop, tier, seed):
+    if tier == "quick":
+        out = auto_family(prop, tier, seed, ["CacheAuto_confq.cfg"], [("CacheAuto_confgen.cfg", 25, 60)],
+                          [("CacheAuto_confq.cfg", [("FIX_STALE", [("MaxFsOps = 2", "MaxFsOps = 3")])])], "")
+        n = 200
+    else:
+        out = auto_family(prop, tier, seed, ["CacheAuto_conf.cfg", "CacheAuto_confshort.cfg"], [("CacheAuto_confgen.cfg", 300, 70)],
+                          [("CacheAuto_confq.cfg", [("FIX_STALE", [("MaxFsOps = 2", "MaxFsOps = 3")])])], "")
+        n = 2000
+    # the resource side, each in a process of its own
+    extra = {}
+    for sub, args in (("reconf", ["-n", n, "-seed", seed]), ("reconf-short", []), ("reconf-default", ["-mode", "first"]), ("reconf-default", ["-mode", "later"])):
+        res, err = run_harness(sub, args, timeout=1800)
+        tool_errors(res["mismatches"])
+        for m in tagged(res["mismatches"], prop):
+            m["replay_sub"] = sub
+            out["mismatches"].append(m)
+        out["coverage"]["evaluations"] += res["evaluations"]
+        out["coverage"]["distinct_nontrivial"] += res["distinct_nontrivial"]
+        extra[sub + " " + " ".join(str(a) for a in args)] = {"evaluations": res["evaluations"], "extra": res.get("extra")}
+    out["coverage"]["resource_probes"] = extra
+    out["coverage"]["rule"] += (" C20 additionally: %d reconfigurations of one cache cycling 6 option sets with inotify descriptors, watches "
+                                "(/proc/self/fdinfo), watch.watch and readEvents goroutines required to return to the one-watcher baseline within 2 s and "
+                                "not to grow; reaction to a change in a final vs. a dropped directory (refresh.done count); a cache created and "
+                                "reconfigured under RLIMIT_NOFILE exhaustion; the default cache configured before and after first use." % n)
+    return out
